@@ -6,6 +6,9 @@ here=$(cd "$(dirname "$0")/.." && pwd)
 cd "$here"
 ids=${@:-$(ls seeded)}
 for id in $ids; do
+  if grep -q '"obsolete_since"' "seeded/$id/meta.json" 2>/dev/null; then
+    echo "SEED $id obsolete (see meta.json)"; continue
+  fi
   wt=/tmp/vfr.$id.$$
   git -C /repo worktree add -q --detach "$wt" HEAD || continue
   if git -C "$wt" apply "$here/seeded/$id/patch.diff"; then
